@@ -6,4 +6,5 @@ MODULES = [
     "leaf",
     "composite",
     "nameditemlist",
+    "odxlink",
 ]
